@@ -364,28 +364,28 @@ def evalR (e : Expr) : R Value :=
   | .error c => .error (.eval c)
 
 mutual
-/-- does the document mention the `unknown` extension function (outside the fragment)? -/
-def mentionsUnknown : Json → Bool
-  | .str s => s == "unknown"
-  | .arr xs => mentionsUnknownList xs
-  | .obj kvs => mentionsUnknownKVs kvs
+/-- does the document call the `unknown` extension function (partial evaluation: outside the fragment)? -/
+def CJ.callsUnknown : CJ → Bool
+  | .extnSingle fn arg => fn == "unknown" || CJ.callsUnknown arg
+  | .extnMulti fn args => fn == "unknown" || CJ.callsUnknownList args
+  | .set xs => CJ.callsUnknownList xs
+  | .record kvs => CJ.callsUnknownKVs kvs
   | _ => false
-def mentionsUnknownList : List Json → Bool
+def CJ.callsUnknownList : List CJ → Bool
   | [] => false
-  | x :: xs => mentionsUnknown x || mentionsUnknownList xs
-def mentionsUnknownKVs : List (String × Json) → Bool
+  | x :: xs => CJ.callsUnknown x || CJ.callsUnknownList xs
+def CJ.callsUnknownKVs : List (String × CJ) → Bool
   | [] => false
-  | (_, x) :: kvs => mentionsUnknown x || mentionsUnknownKVs kvs
+  | (_, x) :: kvs => CJ.callsUnknown x || CJ.callsUnknownKVs kvs
 end
 
 /-- escape-directed parsing: `val_into_restricted_expr(val, None)` -/
 def exprOfJson (j : Json) : R Expr := do
   let c ← CJ.ofJson j
-  c.intoExpr
+  if c.callsUnknown then .error .outside else c.intoExpr
 
 /-- parse a value from JSON without a schema, then evaluate it -/
-def ofJson (j : Json) : R Value :=
-  if mentionsUnknown j then .error .outside else do
+def ofJson (j : Json) : R Value := do
   let e ← exprOfJson j
   evalR e
 
@@ -501,14 +501,22 @@ def typedAttrs (f : SchemaType → Json → R Expr) (actual : List (String × Js
 /-- the value is of the wrong JSON kind for a set / record type: parse it escape-directed (errors of that
     parse win), then report the type mismatch -/
 def mismatch (j : Json) : R Expr := do
-  let c ← CJ.ofJson j
-  let _ ← c.intoExpr
+  let _ ← exprOfJson j
   .error .typeMismatch
+
+/-- `parse_as_unknown` would fire: an explicit `__extn` escape calling `unknown` (outside the fragment) -/
+def explicitUnknown : Json → Bool
+  | .obj kvs =>
+    match (lookupKV kvs "__extn").bind fnAndArgs with
+    | some (f, _) => f == "unknown"
+    | none => false
+  | _ => false
 
 /-- `ValueParser::val_into_restricted_expr(val, expected_ty)` -/
 def typed : Nat → Option SchemaType → Json → R Expr
   | 0, _, _ => .error .fuel
   | fuel + 1, ty, j =>
+    if explicitUnknown j then .error .outside else
     match ty with
     | some (.entity _) => do let u ← uidOfJson j; .ok (.lit (.entityUID u))
     | some (.ext name) => do
@@ -516,6 +524,7 @@ def typed : Nat → Option SchemaType → Json → R Expr
       match x with
       | .exprEscape => .error .exprTag
       | .call fn args =>
+        if fn == "unknown" then .error .outside else
         if !validName fn then .error .escape else
         match extFnSig fn with
         | none => .error .extLookup
@@ -558,8 +567,7 @@ end
 /-- schema-directed parsing to a restricted expression (a `serde_json::Value` never binds a key twice;
     a document that does is refused as it would be at the serde level) -/
 def exprOfJsonTyped (ty : Option SchemaType) (j : Json) : R Expr :=
-  if mentionsUnknown j then .error .outside
-  else if !noDupKeys j then .error .serde
+  if !noDupKeys j then .error .serde
   else typed (2 * j.size + 2) ty j
 
 /-- parse a value from JSON with an expected type, then evaluate it -/
@@ -611,7 +619,6 @@ def evalKVs : List (String × Expr) → R (List (String × Value))
 /-- `EntityJsonParser::parse_ejson` without a schema + `Entity::new`: uid, attrs, parents, tags.
     The `ancestors` field of the result holds the parents as listed (transitive closure is `Entities`' business). -/
 def entityOfJson (j : Json) : R (EntityUID × EntityData) :=
-  if mentionsUnknown j then .error .outside else
   match j with
   | .obj kvs =>
     match lookupKV kvs "uid", lookupKV kvs "attrs", lookupKV kvs "parents" with
